@@ -92,6 +92,7 @@ Fixpoint update_unmerged (t : tree) (leaf : N) (path : list N) : tres tree :=
 Definition add_leaf (t : tree) (id : N) (start : N) : tres (tree * N) :=
   let idx := next_empty_leaf t start in
   let t1 := insert_leaf t idx (Leaf id) in
+  if negb (2 * idx <? tlen t1) then TPanic else      (* self[node_index] = ... indexes out of bounds *)
   tbind (lift (path_nodes t1 idx)) (fun path =>
   tbind (update_unmerged t1 idx path) (fun t2 => TOk (t2, idx))).
 
